@@ -139,3 +139,7 @@ package pypi
 //@   ensures one-segment: theEcosystem().NewVersion(wbase(version)).1 == nil && result1 == nil && operator == "==" && len(theEcosystem().NewVersion(wbase(version)).0.release) == 1 && theEcosystem().NewVersion(wbase(version)).0.epoch == 0 && theEcosystem().NewVersion(wbase(version)).0.release[0] < 9223372036854775807 ==> len(result0) == 2 && result0[0].operator == ">=" && result0[0].version == itoa(theEcosystem().NewVersion(wbase(version)).0.release[0]) + ".0" && result0[1].operator == "<" && result0[1].version == itoa(theEcosystem().NewVersion(wbase(version)).0.release[0] + 1) + ".0"   [C05]
 //@   ensures two-segments: theEcosystem().NewVersion(wbase(version)).1 == nil && result1 == nil && operator == "==" && len(theEcosystem().NewVersion(wbase(version)).0.release) == 2 && theEcosystem().NewVersion(wbase(version)).0.epoch == 0 && theEcosystem().NewVersion(wbase(version)).0.release[0] < 9223372036854775807 && theEcosystem().NewVersion(wbase(version)).0.release[1] < 9223372036854775807 ==> len(result0) == 2 && result0[0].operator == ">=" && result0[0].version == itoa(theEcosystem().NewVersion(wbase(version)).0.release[0]) + "." + itoa(theEcosystem().NewVersion(wbase(version)).0.release[1]) + ".0" && result0[1].operator == "<" && result0[1].version == itoa(theEcosystem().NewVersion(wbase(version)).0.release[0]) + "." + itoa(theEcosystem().NewVersion(wbase(version)).0.release[1] + 1) + ".0"   [C05]
 //@   ensures complement: theEcosystem().NewVersion(wbase(version)).1 == nil && result1 == nil && operator == "!=" && len(theEcosystem().NewVersion(wbase(version)).0.release) == 2 && theEcosystem().NewVersion(wbase(version)).0.epoch == 0 && theEcosystem().NewVersion(wbase(version)).0.release[0] < 9223372036854775807 && theEcosystem().NewVersion(wbase(version)).0.release[1] < 9223372036854775807 ==> len(result0) == 1 && result0[0].operator == "notin" && result0[0].version == itoa(theEcosystem().NewVersion(wbase(version)).0.release[0]) + "." + itoa(theEcosystem().NewVersion(wbase(version)).0.release[1]) + ".0" && result0[0].upper == itoa(theEcosystem().NewVersion(wbase(version)).0.release[0]) + "." + itoa(theEcosystem().NewVersion(wbase(version)).0.release[1] + 1) + ".0"   [C05]
+
+// ---- termination (C06): the only recursive function of the repository; a part of a comma-separated list has no comma
+//@ func parseSpecifier
+//@   decreases strings.Contains(specifier, ",") ? 1 : 0
